@@ -187,28 +187,16 @@ template <typename T>
 std::string op_pop(line_t const &L, bool const _back)
 {
   need(L.args.size() == 1 && L.cat(0) == 'i' && L.par.empty());
-  std::string arg;
+  auto v{mk_vec<T>(L.args[0])};
+  auto d{mk_deque<T>(L.args[0])};
+  if (_back)
+    mark(v);
+  else
+    mark(d);
   g_log.clear();
-  fcppt::optional::object<T> const r{
-      [&]
-      {
-        if (_back)
-        {
-          auto v{mk_vec<T>(L.args[0])};
-          mark(v);
-          g_log.clear();
-          fcppt::optional::object<T> x{fcppt::container::pop_back(v)};
-          arg = slots(v);
-          return x;
-        }
-        auto v{mk_deque<T>(L.args[0])};
-        mark(v);
-        g_log.clear();
-        fcppt::optional::object<T> x{fcppt::container::pop_front(v)};
-        arg = slots(v);
-        return x;
-      }()};
+  fcppt::optional::object<T> const r{_back ? fcppt::container::pop_back(v) : fcppt::container::pop_front(d)};
   event_log const log{g_log};
+  std::string const arg{_back ? slots(v) : slots(d)};
   slots_t s;
   if (r.has_value())
     s.add(r.get_unsafe());
